@@ -11,7 +11,8 @@ TAGS = ["DW_TAG_subprogram", "DW_TAG_variable", "DW_TAG_structure_type", "DW_TAG
         # tags that code might single out
         "DW_TAG_inlined_subroutine", "DW_TAG_GNU_call_site", "DW_TAG_call_site", "DW_TAG_template_type_parameter",
         "DW_TAG_class_type", "DW_TAG_union_type", "DW_TAG_label", "DW_TAG_imported_declaration", "DW_TAG_pointer_type",
-        "DW_TAG_const_type", "DW_TAG_subroutine_type", "DW_TAG_unspecified_type", "DW_TAG_GNU_call_site_parameter", "DW_TAG_enumerator"]
+        "DW_TAG_const_type", "DW_TAG_subroutine_type", "DW_TAG_unspecified_type", "DW_TAG_GNU_call_site_parameter", "DW_TAG_enumerator",
+        "DW_TAG_imported_module"]
 
 
 def rand_name(rng):
@@ -53,6 +54,9 @@ def rand_attrs(rng, version, pool):
 
 def rand_tree(rng, version, depth, budget, pool):
     d = Die(rng.choice(TAGS), rand_attrs(rng, version, pool))
+    # using-directives and using-declarations carry DW_AT_import too: they import nothing into the tree
+    if d.tag in ("DW_TAG_imported_module", "DW_TAG_imported_declaration") and pool and rng.random() < 0.8:
+        d.attrs.insert(rng.randint(0, len(d.attrs)), Attr("DW_AT_import", "DW_FORM_ref4", rng.choice(pool)))
     pool.append(d)
     if depth > 0 and budget[0] > 0 and rng.random() < 0.6:
         n = rng.randint(1, 4)
@@ -184,7 +188,7 @@ ROW_QUERY = ("[pos, offset, label value, [?haschildren 1], [parent offset], [chi
 def impl_rows(path, cooked):
     q = ("entry " if cooked else "raw entry ") + ROW_QUERY
     uq = "[unit offset]" if cooked else "[raw unit offset]"
-    r, ru = zw.run_cases([zw.enc(q, dw=path, max=100000, t=60), zw.enc(uq, dw=path)])
+    r, ru = zw.run_cases([zw.enc(q, dw=path, max=20000, t=60), zw.enc(uq, dw=path)])
     rows = []
     if not r.ok():
         return None, None, json.dumps(r.d)[:300]
@@ -293,6 +297,22 @@ def shaped_forests():
     out.append(("unit-kinds", Forest([ku("DW_TAG_type_unit", b"kt", [Die("DW_TAG_structure_type", [Attr("DW_AT_name", "DW_FORM_string", b"S")], [var(b"m")])]),
                                       cu(b"kc", [var(b"kcv"), imp(kp)]), kp,
                                       ku("DW_TAG_skeleton_unit", b"ks", []), ku("DW_TAG_type_unit", b"kt2", [var(b"t2v")])])))
+    # a compile unit that imports another compile unit, no partial unit anywhere
+    cc_b = cu(b"ccb", [var(b"cb1"), Die("DW_TAG_namespace", [Attr("DW_AT_name", "DW_FORM_string", b"cbns")], [var(b"cb2")])], 5)
+    out.append(("cu-imports-cu", Forest([cu(b"cca", [var(b"ca1"), imp(cc_b), var(b"ca2")]), cc_b])))
+    # more units than any small table of per-unit data holds, all of them coming back to one shared partial unit
+    shared = cu(b"shared", [var(b"sh1"), Die("DW_TAG_structure_type", [Attr("DW_AT_name", "DW_FORM_string", b"S")], [var(b"sh_m")])], 4, True)
+    out.append(("many-importers", Forest([cu(b"mi%d" % i, [var(b"mv%d" % i), imp(shared)] + ([Die("DW_TAG_namespace", [], [imp(shared)])] if i % 9 == 0 else []), [2, 3, 4, 5][i % 4])
+                                          for i in range(35)] + [shared] +
+                                         [cu(b"mj%d" % i, [imp(shared), var(b"mw%d" % i)], [4, 5][i % 2]) for i in range(40)])))
+    # C++ using-directives / using-declarations (DW_AT_import on DIEs that are no imported units) next to a real import
+    ns_v = var(b"in_ns")
+    ns = Die("DW_TAG_namespace", [Attr("DW_AT_name", "DW_FORM_string", b"N")], [ns_v, var(b"in_ns2")])
+    up = cu(b"usingp", [var(b"from_partial")], 4, True)
+    fn = Die("DW_TAG_subprogram", [Attr("DW_AT_name", "DW_FORM_string", b"f")],
+             [Die("DW_TAG_imported_module", [Attr("DW_AT_import", "DW_FORM_ref4", ns)]), Die("DW_TAG_imported_declaration", [Attr("DW_AT_import", "DW_FORM_ref4", ns_v)]), var(b"local")])
+    out.append(("using", Forest([cu(b"using", [ns, Die("DW_TAG_imported_module", [Attr("DW_AT_import", "DW_FORM_ref4", ns)]), fn, imp(up),
+                                               Die("DW_TAG_imported_declaration", [Attr("DW_AT_import", "DW_FORM_ref_addr", up.root.children[0])]), var(b"after")]), up])))
     # DIEs with many attributes (readers that fetch them in batches: 15, 16, 17, 31, 32, 33, 48, 70)
     names = sorted((n for n, v in consts().items() if n.startswith("DW_AT_") and 3 < v < 0x2000 and n not in
                     ("DW_AT_sibling", "DW_AT_import", "DW_AT_specification", "DW_AT_abstract_origin", "DW_AT_decl_file", "DW_AT_call_file",
@@ -373,7 +393,7 @@ def sample_files():
 
 def law_counts(path, laws):
     """laws: [(name, query)] -> {name: number of results or 'ERR:...'}"""
-    rs = zw.run_cases([zw.enc(q, dw=path, t=120, max=1000000) for _, q in laws])
+    rs = zw.run_cases([zw.enc(q, dw=path, t=120, max=50000) for _, q in laws])
     out = {}
     for (n, _), r in zip(laws, rs):
         if not r.ok():
